@@ -116,7 +116,76 @@ def map_pos(pos, asegs, rsegs):
     return real
 
 
+class SegSocket:
+    '''a blocking socket whose recv(n) returns what the kernel has: at most n bytes and never beyond the segment
+    that arrived last (a short read at every segment boundary)'''
+
+    class Drained(Exception):
+        pass
+
+    def __init__(self, segments):
+        self.segments = [bytes(x) for x in segments if x]
+        self.i = 0  # segment being consumed
+        self.calls = 0
+
+    def recv(self, n):
+        self.calls += 1
+        if self.calls > 100000:
+            raise SegSocket.Drained()
+        while self.i < len(self.segments) and not self.segments[self.i]:
+            self.i += 1
+        if self.i >= len(self.segments):
+            raise SegSocket.Drained()  # the real call would block for ever: nothing more is coming
+        if n <= 0:
+            return b''
+        out, self.segments[self.i] = self.segments[self.i][:n], self.segments[self.i][n:]
+        return out
+
+
+def run_recv(job):
+    '''channel `recv`: the REAL blocking reader dawgie.pl.message.receive (farm workers, database lock client)
+    pulling real messages off a socket that delivers the stream in the segments TLC chose'''
+    lens = job['lens']
+    msgs = app_messages('farm', lens)
+    app = b''.join(msgs)
+    if 'chunks' in job:
+        a_abs = [x for ln in lens for x in (4, ln)]
+        a_real = [x for m in msgs for x in (4, len(m) - 4)]
+        c, bounds = 0, []
+        for k in job['chunks']:
+            c += k
+            bounds.append(c)
+        cuts = sorted({map_pos(b, a_abs, a_real) for b in bounds})
+    else:
+        cuts = sorted(job.get('cuts', []))
+    cuts = [c for c in cuts if 0 < c < len(app)]
+    segs, prev = [], 0
+    for c in cuts + [len(app)]:
+        segs.append(app[prev:c])
+        prev = c
+    sock = SegSocket(segs)
+    got = []  # (segment index at completion, incarnation)
+    exc = ''
+    try:
+        while True:
+            m = message.receive(sock)
+            got.append((min(sock.i, len(segs) - 1), m.incarnation))
+    except SegSocket.Drained:
+        pass
+    except Exception as ex:  # pylint: disable=broad-except
+        exc = type(ex).__name__
+    steps = [{'fed': 0, 'delivered': [], 'closed': False, 'closed_by_app': False, 'last': False, 'exc': ''}]
+    fed = 0
+    for i, sg in enumerate(segs):
+        fed += len(sg)
+        steps.append({'fed': fed, 'delivered': [inc for k, inc in got if k <= i], 'closed': False, 'closed_by_app': False, 'last': False, 'exc': exc if i + 1 == len(segs) else ''})
+    steps[-1]['last'] = True
+    return {'tid': job['id'], 'channel': 'recv', 'hs': False, 'bits': job['bits'], 'sizes': [len(m) for m in msgs], 'hslen': 0, 'steps': steps}
+
+
 def run_job(job):
+    if job['channel'] == 'recv':
+        return run_recv(job)
     dawgie.context.fsm = Fsm()
     channel, hs, bits, lens = job['channel'], job['hs'], job['bits'], job['lens']
     delivered = []
